@@ -13,7 +13,7 @@ RULE = ('a faulty carrier — a file with a lexical or a syntax error, or a decl
         'to a failing set never makes it pass; non-trivial = at least 2 files; distinct = distinct (fault kind, '
         'placement, order)')
 
-LOCAL_KINDS = {'struct-dup-element', 'subrange-min-gt-max', 'subrange-min-eq-max', 'enum-dup-value', 'const-no-init',
+LOCAL_KINDS = {'struct-dup-element', 'struct-element-thrice', 'enum-value-thrice', 'subrange-min-gt-max', 'subrange-min-eq-max', 'enum-dup-value', 'const-no-init',
                'undefined-var-rhs', 'undefined-var-target', 'undefined-var-subscript', 'undefined-var-condition', 'undefined-var-call-arg', 'undefined-var-named-like-function', 'undefined-var-named-like-pou', 'task-undefined', 'fb-self-instance', 'const-fb',
                # a name declared twice is a fault of the set wherever the two declarations stand (same file, two files, copies word for word)
                'dup-verbatim-adjacent', 'dup-pou-name', 'dup-type-name'}
@@ -115,12 +115,20 @@ def run(ctx):
         base, ns = units.gen_valid(rng, size=1)
         singles = [s for s in units.plant_all(base, ns, rng) if s[0] not in ('unknown-type', 'call-instance-undeclared', 'enum-value-undefined')]
         if not singles: continue
-        fk, code, ds = rng.choice(singles)
         extra, _ = units.gen_valid(rng, size=1)
         extra = [offset_decl(d, 2000) for d in extra]
-        f0 = units.split_files(rng, ds, rng.choice([1, 2]))
-        mono.append({'fault': fk, 'mode': 'mono-before', 'reuse': False, 'files': f0})
-        mono.append({'fault': fk, 'mode': 'mono-after', 'reuse': False, 'files': f0 + units.split_files(rng, extra, rng.choice([1, 2]))})
+        # one set for a fault drawn at random and one for every fault that involves two declarations (a constant global and the
+        # external that imports it, ...): the accompanying files - which hold a configuration of their own - before and after it
+        picks = [rng.choice(singles)]
+        for k in sorted({x[0] for x in singles} - LOCAL_KINDS):
+            picks.append(rng.choice([x for x in singles if x[0] == k]))
+        for fk, code, ds in picks:
+            f0 = units.split_files(rng, ds, rng.choice([1, 2]))
+            fx = units.split_files(rng, extra, rng.choice([1, 2]))
+            mono.append({'fault': fk, 'mode': 'mono-before', 'reuse': False, 'files': f0})
+            mono.append({'fault': fk, 'mode': 'mono-after', 'reuse': False, 'files': f0 + fx})
+            mono.append({'fault': fk, 'mode': 'mono-before', 'reuse': False, 'files': f0})
+            mono.append({'fault': fk, 'mode': 'mono-after', 'reuse': 'extra-first', 'files': fx + f0})
     cases += mono
 
     NAME_SCHEMES = {'plain': lambda j: f'f{j}.st',
